@@ -112,7 +112,11 @@ func c18Build(cs c18Case) c18File {
 			s.Before = append(append(lead, anc...), segs...)
 		case "after-sof":
 			s.Before = lead
+			if len(segs) > 1 { // stored out of sequence: the set is complete before its highest-numbered chunk is the last to arrive
+				segs = append(segs[1:len(segs):len(segs)], segs[0])
+			}
 			s.After = append([]imggen.JPEGSeg{{Marker: 0xFE, Payload: []byte("x"), Name: "COM"}}, segs...)
+			s.After = append(s.After, imggen.JPEGSeg{Marker: 0xFE, Payload: rng.Bytes(65533), Name: "COMbig"}, imggen.JPEGSeg{Marker: 0xE1, Payload: rng.Bytes(65533), Name: "APP1big"})
 		}
 		s.NoEOI = true
 		b, t := s.Build()
